@@ -634,7 +634,9 @@ def syn_doc(rng, kind=u'text', objects=(), pictures=(), ws=True):
     auto = [st(u'P1', u'paragraph', [E(L.STYLENS, u'paragraph-properties', [(L.FONS, u'margin-left', u'1cm')])]),
             st(u'P2', u'paragraph', [tp]), st(u'T1', u'text', [tp]), st(u'T2', u'text'), st(u'ce1', u'table-cell'),
             st(u'gr1', u'graphic'), st(u'Unused9', u'text')]
-    font = E(L.STYLENS, u'font-face', [(L.STYLENS, u'name', u'Syn Sans'), (L.SVGNS, u'font-family', u"'Syn Sans'")])
+    font = E(L.STYLENS, u'font-face', [(L.STYLENS, u'name', u'Syn Sans'), (L.SVGNS, u'font-family', u"'Syn Sans'")],
+             [E(L.SVGNS, u'font-face-src', [], [E(L.SVGNS, u'font-face-uri', [(L.XLINKNS, u'href', u'Fonts/syn.ttf'), (L.XLINKNS, u'type', u'simple')],
+                                                [E(L.SVGNS, u'font-face-format', [(L.SVGNS, u'string', u'truetype')])])])] if rng.random() < 0.6 else [])
     content = E(L.OFFICENS, u'document-content', [(L.OFFICENS, u'version', u'1.2')],
                 sp() + [E(L.OFFICENS, u'scripts')] + sp() + [E(L.OFFICENS, u'font-face-decls', [], [font])] + sp()
                 + [E(L.OFFICENS, u'automatic-styles', [], auto)] + sp() + [E(L.OFFICENS, u'body', [], sp() + [inner] + sp())] + sp())
@@ -679,7 +681,8 @@ def synthetic(rng, shape='plain'):
     for n, t in ((u'content.xml', c), (u'styles.xml', s), (u'meta.xml', m), (u'settings.xml', st)):
         man.append((n, u'text/xml')); mem.append((n, ser(t)))
     for p in pics:
-        man.append((p, u'image/png')); mem.append((p, b'\x89PNG\r\n' + bytes(bytearray(rng.randrange(256) for _ in range(20)))))
+        man.append((p, rng.choice([u'image/png', u'image/png', u''])))
+        mem.append((p, b'\x89PNG\r\n' + bytes(bytearray(rng.randrange(256) for _ in range(20)))))
     def add_obj(folder, depth):
         k = rng.choice([u'spreadsheet', u'drawing', u'text'])
         sub = []
@@ -854,3 +857,67 @@ def m_object_own_files(spec, rng):
 
 
 MUTATORS += [('object-own-files', m_object_own_files)]
+
+
+# ------------------------------------------------------------------------------------------- round 5 additions
+def m_empty_media_types(spec, rng):
+    """manifest entries with an EMPTY media type (several producers write them): pictures, opaque extras, files below
+    object folders; a picture is added when the package has none"""
+    man = list(spec['manifest']); mem = list(spec['members'])
+    if not any((p or u'').startswith(u'Pictures/') and len(p) > 9 for p, _ in man):
+        man.append((u'Pictures/harness picture.png', u'image/png')); mem.append((u'Pictures/harness picture.png', b'\x89PNG\r\n\x1a\nharness'))
+        man.append((u'Pictures/harness.jpg', u'image/jpeg')); mem.append((u'Pictures/harness.jpg', b'\xff\xd8harness'))
+    out = []
+    for p, mt in man:
+        base = (p or u'').split(u'/')[-1]
+        fixed = p in (u'/',) or base in L.PARTS or (p or u'').endswith(u'/') or p in (u'mimetype', u'META-INF/manifest.xml')
+        if not fixed and rng.random() < 0.7:
+            out.append((p, u''))
+        else:
+            out.append((p, mt))
+    return {'mimetype': spec['mimetype'], 'manifest': out, 'members': mem}
+
+
+def _embedded_font(name, variant, depth):
+    """style:font-face with children (1-3 levels) and text between them"""
+    SVG = L.SVGNS
+    fmt = ('E', SVG, u'font-face-format', [(SVG, u'string', u'truetype')], [])
+    uri = ('E', SVG, u'font-face-uri', [(L.XLINKNS, u'href', u'Fonts/%s.ttf' % variant), (L.XLINKNS, u'type', u'simple')],
+           [fmt] if depth >= 3 else [])
+    src = ('E', SVG, u'font-face-src', [], [('T', u'\n   '), uri, ('T', u' '), ('E', SVG, u'font-face-name', [(SVG, u'name', u'local ' + variant)], []), ('T', u'\n  ')] if depth >= 2 else [])
+    kids = [('T', u'\n  '), src, ('T', u'\n  '), ('E', SVG, u'definition-src', [(L.XLINKNS, u'href', u'Fonts/defs.svg'), (L.XLINKNS, u'type', u'simple')], []), ('T', u'\n ')]
+    return ('E', L.STYLENS, u'font-face', [(L.STYLENS, u'name', name), (SVG, u'font-family', u"'%s'" % name)], kids)
+
+
+def m_embedded_fonts(spec, rng):
+    """embedded fonts: style:font-face elements WITH children (svg:font-face-src / svg:font-face-uri / svg:font-face-format,
+    svg:definition-src) and text between them, declared in both parts (same), in one part only, and differing"""
+    both = _embedded_font(u'Emb Both', u'both', rng.choice([1, 2, 3]))
+    conly = _embedded_font(u'Emb Content', u'content', rng.choice([2, 3]))
+    sonly = _embedded_font(u'Emb Styles', u'styles', rng.choice([2, 3]))
+    differ = rng.random() < 0.3
+    def edit(part):
+        def f(t):
+            mine = [both, conly if part == u'content.xml' else sonly]
+            if differ:
+                mine.append(_embedded_font(u'Emb Differ', part, 2))
+            ff = L.kid(t, L.OFFICENS, 'font-face-decls')
+            kids = list(t[4])
+            sep = [('T', u'\n ')]
+            add = []
+            for x in mine:
+                add += sep + [x]
+            if ff is None:
+                i = 0
+                while i < len(kids) and not (kids[i][0] == 'E' and kids[i][2] in ('styles', 'automatic-styles', 'body', 'master-styles')):
+                    i += 1
+                kids.insert(i, ('E', L.OFFICENS, u'font-face-decls', [], add))
+            else:
+                kids = [('E', k[1], k[2], k[3], list(k[4]) + add) if k is ff else k for k in kids]
+            return ('E', t[1], t[2], t[3], kids)
+        return f
+    s = _edit_body(spec, edit(u'content.xml'), part=u'content.xml', top_only=False)
+    return _edit_body(s, edit(u'styles.xml'), part=u'styles.xml', top_only=False)
+
+
+MUTATORS += [('empty-media-types', m_empty_media_types), ('embedded-fonts', m_embedded_fonts)]
